@@ -539,7 +539,12 @@ func genChf(o genOpts, w *bufio.Writer) {
 			cost := costs[r.intn(len(costs))]
 			for _, rg := range rgs {
 				bal := r.pick(0, 1, 50, 150, 199, 200, 201, 999, 1000, 5000, 100000) * r.pick(1, 1, cost)
-				fmt.Fprintf(w, "chf acct %s %d %s %s\n", hexOf([]byte(supi)), rg, hexOf([]byte(strconv.Itoa(bal))), hexOf([]byte(strconv.Itoa(cost))))
+				costStr := strconv.Itoa(cost)
+				if o.mode == "costs" {
+					// stored tariffs of every shape: the CHF and the rating server must decode them alike
+					costStr = r.pickStr("0", "", "abc", "0.0", "0.5", "1e3", "1.5", "2", "3", "10", "007", "4294967296", "-1", "1.", ".5", " 2")
+				}
+				fmt.Fprintf(w, "chf acct %s %d %s %s\n", hexOf([]byte(supi)), rg, hexOf([]byte(strconv.Itoa(bal))), hexOf([]byte(costStr)))
 			}
 			ns := 1 + r.intn(2)
 			if o.mode == "names" {
@@ -594,6 +599,9 @@ func genChf(o genOpts, w *bufio.Writer) {
 					qmi = 2
 				}
 				reqTok := strconv.Itoa(req)
+				if r.chance(10) {
+					reqTok = "~" // a usage report that asks for nothing (no requestedUnit)
+				}
 				usages = append(usages, fmt.Sprintf("%d %s %s 1 %d %d %d %d %d %d", rg, reqTok, hexOf([]byte("upf1")), qmi, used, used/2, used-used/2, r.intn(3), lsn))
 				s.lastGrant[rg] = req
 			}
